@@ -684,9 +684,29 @@ def evaluate(ck, cases):
     return out
 
 
+def lock_obligation(ck):
+    """the functions of /repo that coq/Model/Pedantic.v and coq/Model/GenWrapper.v model by hand must be the ones the model
+    was validated against: their AST hashes (regenerated into coq/Gen/Pedantic.v) are compared with the committed baseline"""
+    import re
+
+    def locks_of(path):
+        try:
+            text = open(path, encoding='utf-8').read()
+        except OSError:
+            return {}
+        body = text[text.index('Definition locks'):] if 'Definition locks' in text else ''
+        return dict(re.findall(r'\("([^"]+)", "([0-9a-f]+)"\)', body))
+    gen = locks_of(os.path.join(COQ, 'Gen', 'Pedantic.v'))
+    base = locks_of(os.path.join(COQ, 'Gen.baseline', 'Pedantic.v'))
+    diff = sorted(k for k in set(gen) | set(base) if gen.get(k) != base.get(k))
+    ck.oblige('locks:hand-modelled-functions', 'translation', bool(gen) and not diff,
+              ('changed since the model was validated: ' + ', '.join(diff)) if diff else f'{len(gen)} functions unchanged')
+
+
 def run(pid, props, tier, seed, replay=None):
     ck = Check(pid, tier, seed, UNITS, MODEL, props)
     ck.prepare()
+    lock_obligation(ck)
     judge = JUDGES[pid]
 
     def still_fails(f):
